@@ -499,7 +499,7 @@ pub fn c05_lens_sumvec() {
 //@ tier: quick
 //@ cost: 120
 //@ funcs: Flp::{prove, query, decide} length checks (Histogram(2,1) over GF(17))
-//@ bounds: every argument one element short or long (contents symbolic)
+//@ bounds: every argument one element short or long, query randomness also of length 0 and 1 (shorter than the number of validity outputs); contents symbolic
 //@ asserts: prove/query/decide return an error, never panic
 //@ stubs: alloc::fmt::format
 #[kani::proof]
@@ -525,7 +525,16 @@ pub fn c05_wrong_lengths_refused() {
         6 => t.query(&z[..il], &z[..pl], &z[..ql + 1], &z[..jl], 2).map(|_| ()),
         7 => t.query(&z[..il], &z[..pl], &z[..ql], &z[..jl + 1], 2).map(|_| ()),
         8 => t.decide(&z[..t.verifier_len() - 1]).map(|_| ()),
-        _ => t.decide(&z[..t.verifier_len() + 1]).map(|_| ()),
+        9 => t.decide(&z[..t.verifier_len() + 1]).map(|_| ()),
+        10 => t.query(&z[..il], &z[..pl], &z[..ql - 1], &z[..jl], 2).map(|_| ()),
+        11 => t.query(&z[..il], &z[..pl], &z[..1], &z[..jl], 2).map(|_| ()),
+        12 => t.query(&z[..il], &z[..pl], &z[..0], &z[..jl], 2).map(|_| ()),
+        13 => t.query(&z[..il - 1], &z[..pl], &z[..ql], &z[..jl], 2).map(|_| ()),
+        14 => t.query(&z[..il], &z[..pl + 1], &z[..ql], &z[..jl], 2).map(|_| ()),
+        15 => t.query(&z[..il], &z[..pl], &z[..ql], &z[..jl - 1], 2).map(|_| ()),
+        16 => t.prove(&z[..il], &z[..prl - 1], &z[..jl]).map(|_| ()),
+        17 => t.prove(&z[..il], &z[..prl], &z[..jl + 1]).map(|_| ()),
+        _ => t.decide(&z[..0]).map(|_| ()),
     };
     assert!(r.is_err());
     kani::cover!(which == 7);
